@@ -249,16 +249,14 @@ def extract_branch_results_with_internals(net, branch_results, table_name,
             for i, (res_name, entry) in enumerate(res_mean_hydraulics):
                 res_table[res_name].values[pt] = res[i + 3][connected_ind] / num_internals
         if len(res_branch) > 0:
-            use_numba = get_net_option(net, "use_numba")
-            _, sections, connected_sum = _sum_by_group(use_numba, idx_pit, np.ones_like(idx_pit),
-                                comp_connected.astype(np.int32))
-            connected_ind = connected_sum > 0.99
-            indices_last_section = (np.cumsum(sections) - 1).astype(int)[connected_ind]
-            # hint: idx_pit[placement_table] should result in the indices as ordered in the table
-            pt = placement_table[connected_ind]
+            # the sections of one element are adjacent rows of the pit (in table order): the last
+            # section of each element is the row before the element index changes
+            last_section = np.flatnonzero(np.append(idx_pit[1:] != idx_pit[:-1], True))
+            connected = comp_connected[last_section]
 
             for i, (res_name, entry) in enumerate(res_branch):
-                res_table[res_name].values[pt] = branch_results[entry][indices_last_section]
+                res_table[res_name].values[connected] = \
+                    branch_results[entry][f:t][last_section][connected]
 
 
 def extract_branch_results_without_internals(net, branch_results, required_results_hydraulic,
